@@ -66,6 +66,11 @@ def specStep (s : Spec) (op : Op) : Spec × Res :=
       if ¬ mode.writable then (s, .err .readonly) else
       ({ s with disk := some (some m) }, .ok)
     | .has n => if (m (getFileParts n)).isSome then (s, .yes) else (s, .no)
+    | .exit exc =>
+      -- leaving a `with` block: saved exactly when no exception was raised and the mode is writable
+      if exc then (s, .ok) else
+      if ¬ mode.writable then (s, .ok) else
+      ({ s with disk := some (some m) }, .ok)
 
 def specRun : Spec → List Op → Spec × List Res
   | s, [] => (s, [])
@@ -98,6 +103,7 @@ def opOK : Op → Bool
 def flushOK (w : World) (op : Op) : Bool :=
   match op, w.vpk with
   | .flush, some v => !v.mode.writable || decide (v.version > 1) || v.tree.fits
+  | .exit false, some v => !v.mode.writable || decide (v.version > 1) || v.tree.fits
   | _, _ => true
 
 /-- along the whole run of the model -/
